@@ -51,6 +51,8 @@ def tasks(tier):
     # necessary for "the returned field carries exactly the prescribed values": the prescribed-value vector ext0 lists each boundary's value at its unknown
     ts.append(("prescribed values (dof.partition / dof.apply)", "run_included", dict(modname="c08", fname="run_partition", kwargs=dict(dim=2), oid="C07.O8",
                                                                                  why="ext0 and dof0 handed to the solver come from dof.apply / dof.partition")))
+    ts.append(("prescribed values on a third field (u, p, J)", "run_included", dict(modname="c08", fname="run_three_fields", kwargs=dict(dim=2), oid="C07.O8",
+                                                                                 why="a boundary on the n-th field of a mixed container is honoured only if dof.apply writes its value at that field's cumulative offset")))
     ts.append(("tools.solve", "run_tools_solve", {}))
     # the same obligations on the inputs the generic evaluation leaves out: values that are unequal but within numpy's isclose tolerance
     for p in ([True], [False, True], [False, False]):
